@@ -159,6 +159,7 @@ func runStreamProp(c *Ctx, id string) {
 	if id == "C16" {
 		runC16Gauges(c)
 		runC16Windows(c)
+		runC16API(c)
 	}
 	if id == "C12" {
 		runReopenRetriesUnderRebalance(c)
